@@ -886,6 +886,9 @@ func vfRoutes(x []byte, limit uint32, want *MIME) error {
 	_, _ = DetectReader(bytes.NewReader(x[:min(len(x), 40)]))
 	SetLimit(limit)
 	chunk := []int{0, 1, 3, 512, 3072, 5000}[(h>>1)%6]
+	if len(x) > 2000 && chunk > 0 && chunk < 512 {
+		chunk = 700 // byte-wise reading of long inputs costs a Read call per byte
+	}
 	m, err := DetectReader(&vfDataEOFReader{data: x, chunk: chunk})
 	if err != nil || m == nil || vfChainStr(m) != ws {
 		return fmt.Errorf("DetectReader (chunk %d, last data with EOF, after a reader detection under limit %d) gives (%s, %v), Detect gives %s", chunk, prev, vfChainStr(m), err, ws)
@@ -922,7 +925,50 @@ func vfRoutes(x []byte, limit uint32, want *MIME) error {
 		return fmt.Errorf("Detect on a re-used caller buffer (which held other content of the same length just before) gives %s, on a fresh slice %s", vfChainStr(m3), ws)
 	}
 	vfRoutePrev = append(vfRoutePrev[:0], x[:min(len(x), 4096)]...)
+	// (d) a reader that delivers x in two segments (boundary = vfRouteCut if set, else the middle)
+	// with short, non-final reads, under limits far above the input size (64 KiB growth thresholds)
+	cut := len(x) / 2
+	if vfRouteCut > 0 && vfRouteCut < len(x) {
+		cut = vfRouteCut
+	}
+	for _, big := range []uint32{70001, 1 << 20} {
+		if big <= limit || len(x) == 0 {
+			continue
+		}
+		// allocation of `big` bytes per call: sample (every call when a check named the boundary)
+		if vfRouteCut == 0 && ((big == 70001 && (h>>8)%8 != 0) || (big == 1<<20 && (h>>8)%64 != 0)) {
+			continue
+		}
+		if vfRouteCut != 0 && big == 1<<20 && (h>>8)%8 != 0 {
+			continue
+		}
+		SetLimit(big)
+		wantBig := vfChainStr(Detect(x))
+		m4, err := DetectReader(&vfSegReader{segs: [][]byte{x[:cut], x[cut:]}})
+		if err != nil || m4 == nil || vfChainStr(m4) != wantBig {
+			return fmt.Errorf("DetectReader over a reader that returns the input in two short reads (boundary %d) under limit %d gives (%s, %v), Detect gives %s", cut, big, vfChainStr(m4), err, wantBig)
+		}
+	}
 	return nil
+}
+
+// vfRouteCut lets a check name the segment boundary for route (d) (e.g. the end of a complete value).
+var vfRouteCut int
+
+type vfSegReader struct {
+	segs [][]byte
+}
+
+func (r *vfSegReader) Read(p []byte) (int, error) {
+	for len(r.segs) > 0 && len(r.segs[0]) == 0 {
+		r.segs = r.segs[1:]
+	}
+	if len(r.segs) == 0 {
+		return 0, io.EOF
+	}
+	n := copy(p, r.segs[0])
+	r.segs[0] = r.segs[0][n:]
+	return n, nil
 }
 
 // ---------------------------------------------------------------------------------
